@@ -148,7 +148,7 @@ package fox
 //@   panics-when txn.rootTxn == nil
 //@   ensures result == txn.rootTxn.size
 
-//@ func (*Txn).Truncate props C04,C02 partial
+//@ func (*Txn).Truncate props C04,C02
 //@   requires txn != nil
 //@   panics-when txn.rootTxn == nil
 //@   modifies txn.rootTxn.root, txn.rootTxn.size
@@ -162,7 +162,7 @@ package fox
 //@ pred mwsOK(fox *Router) = forall k int :: {fox.mws[k]} 0 <= k && k < len(fox.mws) ==> fox.mws[k].m != nil
 //@ pred optsOK(opts []RouteOption) = forall k int :: {opts[k]} 0 <= k && k < len(opts) ==> opts[k] != nil
 
-//@ func (*Txn).Handle props C04,C02 partial
+//@ func (*Txn).Handle props C04,C02
 //@   requires txn != nil && txn.fox != nil && (txn.rootTxn != nil ==> cacheOK(txn.rootTxn)) && mwsOK(txn.fox) && optsOK(opts)
 //@   panics-when txn.rootTxn == nil
 //@   modifies optCount, txn.rootTxn.root, txn.rootTxn.size, txn.rootTxn.maxParams, txn.rootTxn.depth, txn.rootTxn.writable, cachedIn, lastTxnRoute
@@ -172,7 +172,7 @@ package fox
 //@   ensures counted: (result1 == nil ==> result0 != nil && txn.rootTxn.size == old(txn.rootTxn.size) + 1) && (result1 != nil ==> result0 == nil && txn.rootTxn.size == old(txn.rootTxn.size))
 //@   ensures cache: cacheOK(txn.rootTxn) && lastTxnRoute == result0
 
-//@ func (*Txn).HandleRoute props C04,C02 partial
+//@ func (*Txn).HandleRoute props C04,C02
 //@   requires txn != nil && txn.fox != nil && (txn.rootTxn != nil ==> cacheOK(txn.rootTxn))
 //@   panics-when txn.rootTxn == nil
 //@   modifies txn.rootTxn.root, txn.rootTxn.size, txn.rootTxn.maxParams, txn.rootTxn.depth, txn.rootTxn.writable, cachedIn
@@ -181,7 +181,7 @@ package fox
 //@   ensures counted: (result == nil ==> txn.rootTxn.size == old(txn.rootTxn.size) + 1) && (result != nil ==> txn.rootTxn.size == old(txn.rootTxn.size))
 //@   ensures cache: cacheOK(txn.rootTxn)
 
-//@ func (*Txn).Update props C04,C02 partial
+//@ func (*Txn).Update props C04,C02
 //@   requires txn != nil && txn.fox != nil && (txn.rootTxn != nil ==> cacheOK(txn.rootTxn)) && mwsOK(txn.fox) && optsOK(opts)
 //@   panics-when txn.rootTxn == nil
 //@   modifies optCount, txn.rootTxn.root, txn.rootTxn.writable, cachedIn, lastTxnRoute
@@ -191,7 +191,7 @@ package fox
 //@   ensures counted: txn.rootTxn.size == old(txn.rootTxn.size) && (result1 == nil ==> result0 != nil) && (result1 != nil ==> result0 == nil)
 //@   ensures cache: cacheOK(txn.rootTxn) && lastTxnRoute == result0
 
-//@ func (*Txn).UpdateRoute props C04,C02 partial
+//@ func (*Txn).UpdateRoute props C04,C02
 //@   requires txn != nil && txn.fox != nil && (txn.rootTxn != nil ==> cacheOK(txn.rootTxn))
 //@   panics-when txn.rootTxn == nil
 //@   modifies txn.rootTxn.root, txn.rootTxn.writable, cachedIn
@@ -200,7 +200,7 @@ package fox
 //@   ensures counted: txn.rootTxn.size == old(txn.rootTxn.size)
 //@   ensures cache: cacheOK(txn.rootTxn)
 
-//@ func (*Txn).Delete props C04,C02,C05 partial
+//@ func (*Txn).Delete props C04,C02,C05
 //@   requires txn != nil && txn.fox != nil && (txn.rootTxn != nil ==> cacheOK(txn.rootTxn))
 //@   panics-when txn.rootTxn == nil
 //@   modifies txn.rootTxn.root, txn.rootTxn.size, txn.rootTxn.writable, cachedIn, lastTxnRoute
@@ -213,7 +213,7 @@ package fox
 //@ -- ---------------------------------------------------------------- Router write operations: one locked read-modify-write
 //@ pred routerIdle(fox *Router) = fox != nil && published[&fox.tree] != nil && !held[&fox.mu] && panicking == nil
 
-//@ func (*Router).Handle props C04,C05,C02 partial
+//@ func (*Router).Handle props C04,C05,C02
 //@   requires routerIdle(fox) && mwsOK(fox) && optsOK(opts)
 //@   modifies heap, held[&fox.mu], lockOps[&fox.mu], published[&fox.tree], pubCount[&fox.tree], snapRef, unlockedLoads[&fox.tree], optCount, cachedIn, lastTxnRoute
 //@   ensures unlocked: !held[&fox.mu]
@@ -221,7 +221,7 @@ package fox
 //@   ensures committed: result1 == nil ==> pubCount[&fox.tree] == old(pubCount[&fox.tree]) + 1 && published[&fox.tree].size == old(published[&fox.tree].size) + 1 && result0 == lastTxnRoute && result0 != nil
 //@   ensures aborted: result1 != nil ==> pubCount[&fox.tree] == old(pubCount[&fox.tree]) && published[&fox.tree] == old(published[&fox.tree]) && result0 == nil
 
-//@ func (*Router).HandleRoute props C04,C05,C02 partial
+//@ func (*Router).HandleRoute props C04,C05,C02
 //@   requires routerIdle(fox)
 //@   modifies heap, held[&fox.mu], lockOps[&fox.mu], published[&fox.tree], pubCount[&fox.tree], snapRef, unlockedLoads[&fox.tree], cachedIn
 //@   ensures unlocked: !held[&fox.mu]
@@ -229,7 +229,7 @@ package fox
 //@   ensures committed: result == nil ==> pubCount[&fox.tree] == old(pubCount[&fox.tree]) + 1 && published[&fox.tree].size == old(published[&fox.tree].size) + 1
 //@   ensures aborted: result != nil ==> pubCount[&fox.tree] == old(pubCount[&fox.tree]) && published[&fox.tree] == old(published[&fox.tree])
 
-//@ func (*Router).Update props C04,C05,C02 partial
+//@ func (*Router).Update props C04,C05,C02
 //@   requires routerIdle(fox) && mwsOK(fox) && optsOK(opts)
 //@   modifies heap, held[&fox.mu], lockOps[&fox.mu], published[&fox.tree], pubCount[&fox.tree], snapRef, unlockedLoads[&fox.tree], optCount, cachedIn, lastTxnRoute
 //@   ensures unlocked: !held[&fox.mu]
@@ -237,7 +237,7 @@ package fox
 //@   ensures committed: result1 == nil ==> pubCount[&fox.tree] == old(pubCount[&fox.tree]) + 1 && published[&fox.tree].size == old(published[&fox.tree].size) && result0 == lastTxnRoute && result0 != nil
 //@   ensures aborted: result1 != nil ==> pubCount[&fox.tree] == old(pubCount[&fox.tree]) && published[&fox.tree] == old(published[&fox.tree]) && result0 == nil
 
-//@ func (*Router).UpdateRoute props C04,C05,C02 partial
+//@ func (*Router).UpdateRoute props C04,C05,C02
 //@   requires routerIdle(fox)
 //@   modifies heap, held[&fox.mu], lockOps[&fox.mu], published[&fox.tree], pubCount[&fox.tree], snapRef, unlockedLoads[&fox.tree], cachedIn
 //@   ensures unlocked: !held[&fox.mu]
@@ -245,7 +245,7 @@ package fox
 //@   ensures committed: result == nil ==> pubCount[&fox.tree] == old(pubCount[&fox.tree]) + 1 && published[&fox.tree].size == old(published[&fox.tree].size)
 //@   ensures aborted: result != nil ==> pubCount[&fox.tree] == old(pubCount[&fox.tree]) && published[&fox.tree] == old(published[&fox.tree])
 
-//@ func (*Router).Delete props C04,C05,C02 partial
+//@ func (*Router).Delete props C04,C05,C02
 //@   requires routerIdle(fox)
 //@   modifies heap, held[&fox.mu], lockOps[&fox.mu], published[&fox.tree], pubCount[&fox.tree], snapRef, unlockedLoads[&fox.tree], cachedIn, lastTxnRoute
 //@   ensures unlocked: !held[&fox.mu]
@@ -259,7 +259,8 @@ package fox
 //@ extern SplitHostPath pure
 //@   ensures same(host, splitHost(url)) && same(path, splitPath(url))
 //@ extern roundLatency pure
-//@ func (*Router).Route props C06,C05 partial
+//@ func (*Router).Route props C06,C05
+//@   assume-at after (*Pool).Get#1 : pool-type: dyntypeIs(call_result, *cTx)
 //@   requires fox != nil && published[&fox.tree] != nil
 //@   assume-at call (*cTx).resetNil#1 : pool-discipline: c != nil && c.params != nil && c.tsrParams != nil && c.skipNds != nil
 //@   modifies heap, unlockedLoads[&fox.tree], released
@@ -273,14 +274,16 @@ package fox
 //@   ensures nolock: held[&fox.mu] == old(held[&fox.mu]) && lockOps[&fox.mu] == old(lockOps[&fox.mu]) && pubCount[&fox.tree] == old(pubCount[&fox.tree])
 //@   ensures one-load: unlockedLoads[&fox.tree] == old(unlockedLoads[&fox.tree]) + (held[&fox.mu] ? 0 : 1)
 
-//@ func (*Router).Reverse props C06,C05 partial
+//@ func (*Router).Reverse props C06,C05
+//@   assume-at after (*Pool).Get#1 : pool-type: dyntypeIs(call_result, *cTx)
 //@   requires fox != nil && published[&fox.tree] != nil
 //@   assume-at call (*cTx).resetNil#1 : pool-discipline: c != nil && c.params != nil && c.tsrParams != nil && c.skipNds != nil
 //@   modifies heap, unlockedLoads[&fox.tree], released
 //@   ensures nolock: held[&fox.mu] == old(held[&fox.mu]) && lockOps[&fox.mu] == old(lockOps[&fox.mu]) && pubCount[&fox.tree] == old(pubCount[&fox.tree])
 //@   ensures one-load: unlockedLoads[&fox.tree] == old(unlockedLoads[&fox.tree]) + (held[&fox.mu] ? 0 : 1)
 
-//@ func (*Router).Lookup props C06,C05,C12 partial
+//@ func (*Router).Lookup props C06,C05,C12
+//@   assume-at after (*Pool).Get#1 : pool-type: dyntypeIs(call_result, *cTx)
 //@   requires fox != nil && published[&fox.tree] != nil && r != nil && r.URL != nil
 //@   assume-at call (*cTx).resetWithWriter#1 : pool-discipline: c != nil && c.params != nil && c.tsrParams != nil && c.skipNds != nil
 //@   modifies heap, unlockedLoads[&fox.tree], released
@@ -311,13 +314,14 @@ package fox
 //@ fun txnSelTsr(root roots, method string, host string, path string) bool
 //@ pred txnQuiet(txn *Txn) = held[&txn.fox.mu] == old(held[&txn.fox.mu]) && lockOps[&txn.fox.mu] == old(lockOps[&txn.fox.mu]) && pubCount[&txn.fox.tree] == old(pubCount[&txn.fox.tree]) && published[&txn.fox.tree] == old(published[&txn.fox.tree])
 
-//@ func (*Txn).Has props C04,C06 partial
+//@ func (*Txn).Has props C04,C06
 //@   requires txn != nil && txn.fox != nil && (txn.rootTxn != nil ==> txn.rootTxn.tree != nil)
 //@   panics-when txn.rootTxn == nil
 //@   modifies heap, released
 //@   ensures quiet: txnQuiet(txn)
 
-//@ func (*Txn).Route props C04,C06 partial
+//@ func (*Txn).Route props C04,C06
+//@   assume-at after (*Pool).Get#1 : pool-type: dyntypeIs(call_result, *cTx)
 //@   assert-at call (roots).lookup#1 : own-root: arg_r == txn.rootTxn.root && arg_t == txn.rootTxn.tree
 //@   requires txn != nil && txn.fox != nil && (txn.rootTxn != nil ==> txn.rootTxn.tree != nil)
 //@   assume-at call (*cTx).resetNil#1 : pool-discipline: c != nil && c.params != nil && c.tsrParams != nil && c.skipNds != nil
@@ -326,7 +330,8 @@ package fox
 //@   ensures quiet: txnQuiet(txn)
 //@   ensures own-root: txn.rootTxn == old(txn.rootTxn) && txn.rootTxn.root == old(txn.rootTxn.root) && txn.rootTxn.size == old(txn.rootTxn.size)
 
-//@ func (*Txn).Reverse props C04,C06 partial
+//@ func (*Txn).Reverse props C04,C06
+//@   assume-at after (*Pool).Get#1 : pool-type: dyntypeIs(call_result, *cTx)
 //@   assert-at call (roots).lookup#1 : own-root: arg_r == txn.rootTxn.root && arg_t == txn.rootTxn.tree
 //@   requires txn != nil && txn.fox != nil && (txn.rootTxn != nil ==> txn.rootTxn.tree != nil)
 //@   assume-at call (*cTx).resetNil#1 : pool-discipline: c != nil && c.params != nil && c.tsrParams != nil && c.skipNds != nil
@@ -335,7 +340,8 @@ package fox
 //@   ensures quiet: txnQuiet(txn)
 //@   ensures own-root: txn.rootTxn == old(txn.rootTxn) && txn.rootTxn.root == old(txn.rootTxn.root) && txn.rootTxn.size == old(txn.rootTxn.size)
 
-//@ func (*Txn).Lookup props C04,C06,C12 partial
+//@ func (*Txn).Lookup props C04,C06,C12
+//@   assume-at after (*Pool).Get#1 : pool-type: dyntypeIs(call_result, *cTx)
 //@   assert-at call (roots).lookup#1 : own-root: arg_r == txn.rootTxn.root && arg_t == txn.rootTxn.tree
 //@   requires txn != nil && txn.fox != nil && r != nil && r.URL != nil && (txn.rootTxn != nil ==> txn.rootTxn.tree != nil)
 //@   assume-at call (*cTx).resetWithWriter#1 : pool-discipline: c != nil && c.params != nil && c.tsrParams != nil && c.skipNds != nil
@@ -345,7 +351,7 @@ package fox
 //@   ensures current-request: route != nil ==> cc != nil && dyntypeIs(cc, *cTx) && ctxOf(cc).req == r && ctxOf(cc).route == route && ctxOf(cc).tsr == tsr && ctxOf(cc).scope == RouteHandler && !released[cc]
 //@   ensures none: route == nil ==> cc == nil
 
-//@ func (*Txn).Iter props C04,C06,C03 partial
+//@ func (*Txn).Iter props C04,C06,C03
 //@   requires txn != nil && txn.fox != nil
 //@   panics-when txn.rootTxn == nil
 //@   modifies txn.rootTxn.writable, snapRef
